@@ -203,6 +203,10 @@ def check_log(case, obs):
     defs = {}              # (i, d) -> ["pending"|"fired", late?]
     netpaused, waiting, closed, conn_lost = False, False, False, False
     writes_of = {}
+    delivered, ends, tot = 0, [], 0
+    for i, q in enumerate(case["reqs"]):
+        tot += len(req_bytes(i, q))
+        ends.append(tot)
     for k, (op, evs) in enumerate(zip(case["ops"], ops_logs)):
         where = f"op {k} {op}: "
         if op[0] == "tp":
@@ -288,6 +292,12 @@ def check_log(case, obs):
                                                            f"{'finished' if i in finished else 'lost its connection'}"))
         if open_ is None and not closed and not waiting and netpaused and not conn_lost:
             bad.append(("reading-left-paused", where + "channel idle, transport writable, but reading is still paused"))
+        # head-of-line blocking must end: an idle channel holds no complete request back
+        if op[0] == "data":
+            delivered += op[1]
+        if open_ is None and not closed and not conn_lost and nextp < len(ends) and delivered >= ends[nextp]:
+            bad.append(("pipelined-request-stalled", where + f"request {nextp} is completely received, no request is being "
+                                                            f"handled, but it was not handed to the application"))
     if (closing == "T") != closed:
         bad.append(("close-flag", f"closing={closing} but loseConnection {'was' if closed else 'was not'} called"))
     # bytes of the finished responses: one response each, in order, body = its own writes
